@@ -25,9 +25,13 @@ import (
 
 // ------------------------------------------------------------------ key sets
 
-// plainKeys: 8 keys whose hex-nibble forms share prefixes of length 0, 1, 2, 3,
-// 4 and 63; "12" is a strict nibble-prefix of "1234"/"1235", "1235" is a strict
-// prefix of the two 32-byte keys, and the empty key is a prefix of everything.
+// plainKeys: 8 keys whose hex-nibble forms share prefixes of length 0, 1, 3, 4
+// and 63: the empty key is a strict nibble-prefix of everything (value slot of
+// the root branch), "1235" is a strict prefix of the two 32-byte keys (value
+// slot of an inner branch), "1234"/"1235"/"1236" meet in a three-way branch,
+// "1300" leaves after one shared nibble, "2f" shares nothing, and the two
+// 32-byte keys differ in their last nibble only (63-nibble extension above two
+// leaves that are embedded when the values are small).
 func plainKeys() [][]byte {
 	long := func(last byte) []byte {
 		k := append([]byte{0x12, 0x35}, bytes.Repeat([]byte{0xab}, 29)...)
@@ -35,11 +39,11 @@ func plainKeys() [][]byte {
 	}
 	return [][]byte{
 		{},
-		{0x12},
+		{0x2f},
+		{0x13, 0x00},
 		{0x12, 0x34},
 		{0x12, 0x35},
-		{0x13, 0x00},
-		{0x2f},
+		{0x12, 0x36},
 		long(0x01),
 		long(0x02),
 	}
@@ -62,7 +66,8 @@ func nibbleLCP(a, b []byte) int {
 
 // secureKeys: the two 32-byte keys plus four 32-byte keys found by a fixed
 // search so that the keccak images (the paths really used by a SecureTrie) share
-// 1, 2 and 3 nibbles with the image of the first key and ≥1 with the second.
+// exactly 1, 2 and 3 nibbles with the image of the first key, and one that
+// shares nothing with either (so the root branch has at least three children).
 func secureKeys() [][]byte {
 	pk := plainKeys()
 	ks := [][]byte{pk[6], pk[7]}
@@ -72,7 +77,7 @@ func secureKeys() [][]byte {
 		func(h []byte) bool { return nibbleLCP(h, h0) == 1 },
 		func(h []byte) bool { return nibbleLCP(h, h0) == 2 },
 		func(h []byte) bool { return nibbleLCP(h, h0) == 3 },
-		func(h []byte) bool { return nibbleLCP(h, h1) >= 1 && nibbleLCP(h, h0) == 0 },
+		func(h []byte) bool { return nibbleLCP(h, h1) == 0 && nibbleLCP(h, h0) == 0 },
 	}
 	for _, ok := range want {
 		found := false
@@ -662,6 +667,9 @@ func (d *trieDriver) run(ops []tOp, heavy bool, refRoot *[32]byte) (res trieRes)
 		})
 	}
 	res.key, res.ckey = st.key(), st.contentKey()
+	if len(ops) == 0 {
+		res.class = "initial||"
+	}
 	return
 }
 
